@@ -142,6 +142,15 @@ class SourceDB:
         m = self.modules.get(modname)
         if not m:
             return None
+        if ".<locals>." in qual:
+            outer, inner = qual.split(".<locals>.", 1)
+            o = self.lookup(modname, outer)
+            if o is None:
+                return None
+            for node in ast.walk(o):
+                if isinstance(node, ast.FunctionDef) and node.name == inner and node is not o:
+                    return node
+            return None
         parts = qual.split(".")
         if len(parts) == 1:
             return m["funcs"].get(parts[0])
